@@ -140,7 +140,8 @@ def fromComparison (s : Sign) (t : Term) (gs : List Guard) (inBound : VSet) : VS
 def simpleArg (acc : VSet × VSet) (arg : Term) : VSet × VSet :=
   let variables := arg.vars  -- a list: `p(X+X)` has two
   if (variables.length == 1 && !arg.hasUnsafe)
-      || (arg.collect Term.isBin).length + (arg.collect Term.isUn).length == 0 then
+      -- fix (known_findings.json `fixed:`): `p(1..D)` does not bind `D`
+      || ((arg.collect Term.isBin).length + (arg.collect Term.isUn).length == 0 && !arg.hasInterval) then
     (vUnion acc.1 variables, acc.2)
   else (acc.1, vUnion acc.2 variables)
 
@@ -303,11 +304,11 @@ def bindingHead (head : Head) (body : List BLit) : Except String (VSet × VSet) 
         let needL := vOfList (litVars e.1)
         pure (vUnion (vUnion acc.1 (vDiff needL bl)) ul, vUnion acc.2 bl)) (need, [])
     | .disj elems =>
-      -- NB the `unbound` of the conditions is dropped here
+      -- fix (known_findings.json `fixed:`): the `unbound` of the conditions is kept, as for choice heads
       elems.foldlM (fun (acc : VSet × VSet) (e : CondLit) => do
-        let (bl, _) ← conditions e.2 boundInBody
+        let (bl, ul) ← conditions e.2 boundInBody
         let needL := vOfList (litVars e.1)
-        pure (vUnion acc.1 (vDiff needL bl), vUnion acc.2 bl)) ([], [])
+        pure (vUnion (vUnion acc.1 (vDiff needL bl)) ul, vUnion acc.2 bl)) ([], [])
     | .theory _ => pure ([], []) : Except String (VSet × VSet))
   let need := vNoAnon need
   let nob := vNoAnon nob
